@@ -1,9 +1,299 @@
 import ShVerif.Proofs.C20
 /-
-  C20 — Arithmetic evaluation matches bash.  Property theorems.
+  C20 — Arithmetic evaluation matches bash.  Property theorems (statements are fixed; helper
+  lemmas live in ShVerif/Proofs/C20*.lean).
+
+  Model: `evalArith` (expand.Arithm), `atoi`, `binArit`, `intPow`, `parseArith`
+  (syntax/parser_arithm.go), `arithCmdStatus`/`letStatus`/`expansionStatus` (interp/runner.go).
+  Specification: `specEval` = BashArith (bash's arithmetic on mathematical integers; results that
+  leave int64 or shift counts outside 0..63 are `outOfDomain`), `specNumber` (bash constants),
+  `spec…Status`.
 -/
 namespace ShVerif.C20
 
-theorem placeholder_true : True := trivial
+/-! ## Concrete environments and names for the examples -/
+
+def envOf (l : List (Bytes × Bytes)) : Env :=
+  { get := fun n => match l.lookup n with | some v => v | none => []
+    ro := fun _ => false }
+
+def nx : Bytes := [120]   -- "x"
+def ny : Bytes := [121]   -- "y"
+def nz : Bytes := [122]   -- "z"
+def lit (s : String) : Expr := .word s.toUTF8.toList
+
+/-! ## eval_eq_spec -/
+
+/-- The property's statement on its stated domain (no signed overflow, shift counts 0..63): for
+    every tree of bash's grammar and every environment, whenever bash's semantics pronounces a
+    result (a value or one of bash's errors) the implementation returns the same result and leaves
+    the same environment.  FALSE of the code — see the counter-examples below. -/
+def eval_eq_spec_statement : Prop :=
+  ∀ (fuel : Nat) (env : Env) (e : Expr) (r : Res) (env' : Env), WF e = true →
+    specEval fuel bashMaxDepth env e = (r, env') → r.inDomain → evalArith env e = (r, env')
+
+/-- `eval_eq_spec` under the exact extra hypotheses: every variable value is an integer literal or
+    a chain of names ending in one (`EnvOK`), every constant in the expression is a valid bash
+    constant (`LitsOK`), and the targets of `op=`, `++`, `--` hold a literal, not a name
+    (`LvalsOK`). -/
+theorem eval_eq_spec_partial (fuel : Nat) (env : Env) (e : Expr) (r : Res) (env' : Env)
+    (hwf : WF e = true) (henv : EnvOK env) (hlit : LitsOK e) (hlv : LvalsOK env.get e)
+    (h : specEval fuel bashMaxDepth env e = (r, env')) (hd : r.inDomain) :
+    evalArith env e = (r, env') :=
+  eval_eq_spec_core fuel env e r env' hwf henv hlit hlv h hd
+
+/-- Non-vacuity: the hypotheses hold for `x=5; y=x; $(( y * 2 + x++ ))` and the result is 15. -/
+example :
+    let env := envOf [(nx, [53]), (ny, nx)]
+    let e : Expr := .binary .add (.binary .mul (.word ny) (lit "2")) (.unary .inc true (.word nx))
+    (specEval 100 bashMaxDepth env e).1 = .ok 15 ∧ (evalArith env e).1 = .ok 15 := by decide
+
+/-- Counter-example 1 (C20-expr-text-value): `x="1+2"; $((x))` is 3 in bash, 0 in the code. -/
+theorem eval_eq_spec_counterexample_text :
+    (specEval 100 bashMaxDepth (envOf [(nx, "1+2".toUTF8.toList)]) (.word nx)).1 = .ok 3 ∧
+    (evalArith (envOf [(nx, "1+2".toUTF8.toList)]) (.word nx)).1 = .ok 0 := by decide
+
+/-- Counter-example 2 (C20-lvalue-no-chase): `y=x; x=5; $((y+=1))` is 6 in bash, 1 in the code. -/
+theorem eval_eq_spec_counterexample_lvalue :
+    (specEval 100 bashMaxDepth (envOf [(ny, nx), (nx, [53])])
+      (.binary .addAssgn (.word ny) (lit "1"))).1 = .ok 6 ∧
+    (evalArith (envOf [(ny, nx), (nx, [53])]) (.binary .addAssgn (.word ny) (lit "1"))).1 = .ok 1 := by
+  decide
+
+/-- Counter-example 3 (C20-invalid-literal-no-error): `$((08))` is an error in bash, 0 in the code. -/
+theorem eval_eq_spec_counterexample_literal :
+    (specEval 100 bashMaxDepth (envOf []) (lit "08")).1 = .err .badNumber ∧
+    (evalArith (envOf []) (lit "08")).1 = .ok 0 := by decide
+
+/-- Counter-example 4 (C20-name-cycle): `x=x; $((x))` exceeds bash's recursion limit (an error),
+    the code gives 0. -/
+theorem eval_eq_spec_counterexample_cycle :
+    (specEval 3000 bashMaxDepth (envOf [(nx, nx)]) (.word nx)).1 = .err .recursion ∧
+    (evalArith (envOf [(nx, nx)]) (.word nx)).1 = .ok 0 :=
+  ⟨cycle_recursion, by decide⟩
+
+theorem eval_eq_spec_statement_false : ¬ eval_eq_spec_statement := by
+  intro h
+  have h1 := h 100 (envOf [(nx, "1+2".toUTF8.toList)]) (.word nx) _ _ (by decide) rfl
+  have h2 := eval_eq_spec_counterexample_text
+  rw [h2.1] at h1
+  have h3 := congrArg Prod.fst (h1 trivial)
+  rw [h2.2] at h3
+  exact absurd h3 (by decide)
+
+/-! ## assign_ops: `x op= e` ≡ `x = x op e` -/
+
+def assign_ops_statement : Prop :=
+  ∀ (env : Env) (op aop : BinOp) (x : Bytes) (e : Expr), assignOp op = some aop →
+    evalArith env (.binary op (.word x) e) =
+      evalArith env (.binary .assgn (.word x) (.binary aop (.word x) e))
+
+/-- True whenever the variable does not hold a (non-empty) name: `op=` reads it with `atoi`,
+    `x op e` with the name-chasing word rule. -/
+theorem assign_ops_partial (env : Env) (op aop : BinOp) (x : Bytes) (e : Expr)
+    (hop : assignOp op = some aop) (hx : validName x = true)
+    (hv : validName (env.get x) = false) :
+    evalArith env (.binary op (.word x) e) =
+      evalArith env (.binary .assgn (.word x) (.binary aop (.word x) e)) :=
+  assign_ops_core env op aop x e hop hx hv
+
+theorem assign_ops_counterexample :
+    (evalArith (envOf [(ny, nx), (nx, [53])]) (.binary .addAssgn (.word ny) (lit "1"))).1 = .ok 1 ∧
+    (evalArith (envOf [(ny, nx), (nx, [53])])
+      (.binary .assgn (.word ny) (.binary .add (.word ny) (lit "1")))).1 = .ok 6 := by decide
+
+theorem assign_ops_statement_false : ¬ assign_ops_statement := by
+  intro h
+  have h1 := congrArg Prod.fst
+    (h (envOf [(ny, nx), (nx, [53])]) .addAssgn .add ny (lit "1") rfl)
+  rw [assign_ops_counterexample.1, assign_ops_counterexample.2] at h1
+  exact absurd h1 (by decide)
+
+/-! ## status -/
+
+/-- `(( e ))`: status 0 iff the expression evaluates, without error, to a non-zero value. -/
+theorem status_arithCmd (env : Env) (e : Expr) :
+    (arithCmdStatus env e).1 = 0 ↔ ∃ v, (evalArith env e).1 = .ok v ∧ v ≠ 0 :=
+  status_arithCmd_core env e
+
+/-- `let e₁ … eₙ e`: status 0 iff the last expression, evaluated in the environment the previous
+    ones leave, gives a non-zero value. -/
+theorem status_let (env : Env) (es : List Expr) (e : Expr) :
+    (letStatus env (es ++ [e])).1 = 0 ↔
+      ∃ v, (evalArith (letLoop env 0 es).2 e).1 = .ok v ∧ v ≠ 0 :=
+  status_let_core env es e
+
+/-- On the domain of `eval_eq_spec_partial`, `(( e ))` has bash's status and side effects, errors
+    included (both give 1). -/
+theorem status_arithCmd_eq_spec (fuel : Nat) (env : Env) (e : Expr)
+    (hwf : WF e = true) (henv : EnvOK env) (hlit : LitsOK e) (hlv : LvalsOK env.get e)
+    (hd : (specEval fuel bashMaxDepth env e).1.inDomain) :
+    arithCmdStatus env e = specArithCmdStatus fuel env e :=
+  status_arithCmd_eq_spec_core fuel env e hwf henv hlit hlv hd
+
+/-- Full statement for `let` with several arguments and for `$(( ))`: FALSE (errors do not stop
+    `let`, and a failing expansion leaves status 0). -/
+def status_let_statement : Prop :=
+  ∀ (fuel : Nat) (env : Env) (es : List Expr), (∀ e ∈ es, WF e = true ∧ LitsOK e) → EnvOK env →
+    (∀ e ∈ es, LvalsOK env.get e) →
+    (∀ e ∈ es, ∀ env1, (specEval fuel bashMaxDepth env1 e).1.inDomain) →
+    (letStatus env es).1 = (specLetStatus fuel env es).1
+
+def status_expansion_statement : Prop :=
+  ∀ (fuel : Nat) (env : Env) (e : Expr), WF e = true → LitsOK e → EnvOK env → LvalsOK env.get e →
+    (specEval fuel bashMaxDepth env e).1.inDomain →
+    (expansionStatus env e).1 = (specExpansionStatus fuel env e).1
+
+/-- C20-let-continues-after-error: `let 1/0 x=5` has status 1 in bash, 0 in the code. -/
+theorem status_let_counterexample :
+    (letStatus (envOf []) [.binary .quo (lit "1") (lit "0"), .binary .assgn (.word nx) (lit "5")]).1 = 0 ∧
+    (specLetStatus 100 (envOf [])
+      [.binary .quo (lit "1") (lit "0"), .binary .assgn (.word nx) (lit "5")]).1 = 1 := by decide
+
+/-- C20-arith-error-status: `echo $((1/0))` has status 1 in bash, 0 in the code. -/
+theorem status_expansion_counterexample :
+    (expansionStatus (envOf []) (.binary .quo (lit "1") (lit "0"))).1 = 0 ∧
+    (specExpansionStatus 100 (envOf []) (.binary .quo (lit "1") (lit "0"))).1 = 1 := by decide
+
+/-! ## errors_iff -/
+
+/-- `binArit` fails exactly on division/remainder by zero and on negative exponents (for the
+    operators bash has). -/
+theorem errors_iff_binArit (op : BinOp) (x y : Int) (hop : plainBin op = true) :
+    (∃ err, binArit op x y = .err err) ↔
+      ((op = .quo ∨ op = .rem) ∧ y = 0) ∨ (op = .pow ∧ y < 0) :=
+  errors_iff_binArit_core op x y hop
+
+/-- On the domain of `eval_eq_spec_partial` the implementation reports an error iff bash does, and
+    it is the same error. -/
+theorem errors_iff (fuel : Nat) (env : Env) (e : Expr) (err : Err)
+    (hwf : WF e = true) (henv : EnvOK env) (hlit : LitsOK e) (hlv : LvalsOK env.get e)
+    (hd : (specEval fuel bashMaxDepth env e).1.inDomain) :
+    (evalArith env e).1 = .err err ↔ (specEval fuel bashMaxDepth env e).1 = .err err := by
+  have h := eval_eq_spec_partial fuel env e _ _ hwf henv hlit hlv rfl hd
+  rw [h]
+
+/-- Trees of bash's grammar never make `Arithm` panic … -/
+theorem no_panic (env : Env) (e : Expr) (hwf : WF e = true) : (evalArith env e).1 ≠ .panic :=
+  no_panic_core env e hwf
+
+/-- … but the parser also produces `++x++` = `++(x++)`, on which it does
+    (C20-preinc-postinc-panic). -/
+theorem parser_output_panics :
+    parseArith [.sym .addAdd, .word nx, .sym .addAdd] =
+      some (.unary .inc false (.unary .inc true (.word nx))) ∧
+    (evalArith (envOf []) (.unary .inc false (.unary .inc true (.word nx)))).1 = .panic := by
+  decide
+
+/-! ## atoi_spec -/
+
+/-- On every valid bash constant — decimal, `0`octal, `0x`hex, `base#digits` with bases 2..64 and
+    bash's digit alphabets (letters case-insensitive up to base 36; `a-z`=10..35, `A-Z`=36..61,
+    `@`=62, `_`=63 above) — whose value fits int64, `atoi` returns the mathematical value. -/
+theorem atoi_spec (w : Bytes) (n : Nat) (h : specNumber w = some n) (hn : n < 2 ^ 63) :
+    atoi w = Int.ofNat n :=
+  atoi_lit h hn
+
+/-- … also with blanks and a sign around it, as in a variable value. -/
+theorem atoi_spec_signed (v : Bytes) (neg : Bool) (n : Nat) (h : IntLit v neg n) (hn : n < 2 ^ 63) :
+    atoi v = if neg then -(Int.ofNat n) else Int.ofNat n :=
+  atoi_intLit h hn
+
+example : atoi "64#@_".toUTF8.toList = 4031 ∧ specNumber "64#@_".toUTF8.toList = some 4031 := by decide
+example : atoi "36#Zz".toUTF8.toList = 1295 ∧ atoi " -0x1F ".toUTF8.toList = -31 := by decide
+
+/-- Invalid constants are 0 for `atoi` (bash: error) — C20-invalid-literal-no-error. -/
+theorem atoi_invalid_examples :
+    atoi "08".toUTF8.toList = 0 ∧ specNumber "08".toUTF8.toList = none ∧
+    atoi "2#2".toUTF8.toList = 0 ∧ specNumber "2#2".toUTF8.toList = none ∧
+    atoi "65#1".toUTF8.toList = 0 ∧ specNumber "65#1".toUTF8.toList = none := by decide
+
+/-! ## prec_assoc -/
+
+def tX : Tok := .word nx
+def tY : Tok := .word ny
+def tZ : Tok := .word nz
+def eX : Expr := .word nx
+def eY : Expr := .word ny
+def eZ : Expr := .word nz
+
+/-- bash manual, "ARITHMETIC EVALUATION": infix operators in order of decreasing precedence
+    (larger number = binds tighter); operators of one class associate to the left, `**` to the
+    right. -/
+def bashPrec : BinOp → Option Nat
+  | .pow => some 12
+  | .mul | .quo | .rem => some 11
+  | .add | .sub => some 10
+  | .shl | .shr => some 9
+  | .leq | .geq | .lss | .gtr => some 8
+  | .eql | .neq => some 7
+  | .and => some 6
+  | .xor => some 5
+  | .or => some 4
+  | .andL => some 3
+  | .orL => some 2
+  | .comma => some 0
+  | _ => none
+
+def infixOps : List BinOp :=
+  [.pow, .mul, .quo, .rem, .add, .sub, .shl, .shr, .leq, .geq, .lss, .gtr, .eql, .neq,
+   .and, .xor, .or, .andL, .orL, .comma]
+
+def bashAssignOps : List BinOp :=
+  [.assgn, .mulAssgn, .quoAssgn, .remAssgn, .addAssgn, .subAssgn, .shlAssgn, .shrAssgn,
+   .andAssgn, .xorAssgn, .orAssgn]
+
+def symOf (o : BinOp) : Tok := match o.sym with | some s => .sym s | none => .rparen
+
+/-- how `x o1 y o2 z` groups according to the manual -/
+def bashGroup (o1 o2 : BinOp) : Option Expr :=
+  match bashPrec o1, bashPrec o2 with
+  | some p1, some p2 =>
+    if p1 < p2 ∨ (p1 = p2 ∧ o1 = .pow) then some (.binary o1 eX (.binary o2 eY eZ))
+    else some (.binary o2 (.binary o1 eX eY) eZ)
+  | _, _ => none
+
+/-- Binding order and associativity of every pair of infix operators equal bash's table. -/
+theorem prec_assoc_infix : infixOps.all (fun o1 => infixOps.all (fun o2 =>
+    parseArith [tX, symOf o1, tY, symOf o2, tZ] == bashGroup o1 o2)) = true := by decide +kernel
+
+/-- Assignments bind looser than every infix operator except `,`, and associate to the right. -/
+theorem prec_assoc_assign : bashAssignOps.all (fun a =>
+    infixOps.all (fun o =>
+      parseArith [tX, symOf a, tY, symOf o, tZ] ==
+        (if o = .comma then some (.binary .comma (.binary a eX eY) eZ)
+         else some (.binary a eX (.binary o eY eZ)))) &&
+    bashAssignOps.all (fun b =>
+      parseArith [tX, symOf a, tY, symOf b, tZ] == some (.binary a eX (.binary b eY eZ)))) = true := by
+  decide +kernel
+
+/-- `?:` binds looser than `||`, tighter than assignment and `,`, nests to the right, and its
+    middle operand is a full expression. -/
+theorem prec_assoc_ternary :
+    parseArith [tX, .sym .orOr, tY, .sym .quest, tZ, .sym .colon, tX, .sym .orOr, tY] =
+      some (.binary .ternQuest (.binary .orL eX eY) (.binary .ternColon eZ (.binary .orL eX eY))) ∧
+    parseArith [tX, .sym .assgn, tY, .sym .quest, tZ, .sym .colon, tX] =
+      some (.binary .assgn eX (.binary .ternQuest eY (.binary .ternColon eZ eX))) ∧
+    parseArith [tX, .sym .quest, tY, .sym .colon, tZ, .sym .quest, tX, .sym .colon, tY] =
+      some (.binary .ternQuest eX (.binary .ternColon eY
+        (.binary .ternQuest eZ (.binary .ternColon eX eY)))) ∧
+    parseArith [tX, .sym .quest, tY, .sym .comma, tZ, .sym .colon, tX, .sym .comma, tY] =
+      some (.binary .comma (.binary .ternQuest eX (.binary .ternColon (.binary .comma eY eZ) eX)) eY) := by
+  decide
+
+/-- Prefix `! ~ + -` bind tighter than `**` (`-x ** y` is `(-x) ** y`, as in bash) and hence than
+    every infix operator; `++`/`--` bind tighter still. -/
+theorem prec_assoc_unary :
+    parseArith [.sym .minus, tX, .sym .power, tY] = some (.binary .pow (.unary .minus false eX) eY) ∧
+    parseArith [tX, .sym .power, .sym .minus, tY] = some (.binary .pow eX (.unary .minus false eY)) ∧
+    parseArith [.sym .exclMark, tX, .sym .star, tY] = some (.binary .mul (.unary .not false eX) eY) ∧
+    parseArith [.sym .tilde, tX, .sym .addAdd] = some (.unary .bitNeg false (.unary .inc true eX)) ∧
+    parseArith [.sym .minus, .sym .subSub, tX] = some (.unary .minus false (.unary .dec false eX)) := by
+  decide
+
+/-- The round trip: a tree whose operands sit at the levels of the chain (`PrecOK`) prints, without
+    any parenthesis of its own, to a token list that parses back to the same tree. -/
+theorem prec_assoc (e : Expr) (h : PrecOK e = true) : parseArith (printArith e) = some e :=
+  parse_print e h
 
 end ShVerif.C20
